@@ -6,6 +6,9 @@ import DeepModel.Props.C06
 #print axioms C06.c06_watch_failure_contained
 #print axioms C06.c06_placeholder
 #print axioms C06.c06_entry_local
+#print axioms C06.c06_shape_independent
+#print axioms C06.c06_str_never_fails
+#print axioms C06.c06_others_intact
 #print axioms C06.c06_scopes
 #print axioms C06.c06_independent
 #print axioms C06.c06_others_do_not_matter
